@@ -22,6 +22,10 @@ THEOREMS = [
     "PV.C05.tokens_in_bounds",
     "PV.C05.tokens_on_boundaries",
     "PV.C05.tokens_ordered_disjoint",
+    "PV.C05.token_text_spells",
+    "PV.C05.newline_only_at_depth0",
+    "PV.C05.indents_balanced",
+    "PV.C05.full_lexer_tiles",
 ]
 TRUSTED = [
     "Lean 4.33.0 kernel; axioms limited to propext, Classical.choice, Quot.sound",
